@@ -318,7 +318,7 @@ pub fn run_history_property<H: HB>(prop: &'static str, tier: Tier) -> Outcome {
         // order properties: the whole mutator alphabet (conversion pulls in the other kind)
         "C01" | "C02" => (full, if q { 3 } else { 4 }, 3),
         "C03" => (full | A_BORROWED | A_PAYLOAD, 3, if q { 2 } else { 3 }),
-        "C04" => (full | A_ITER_MUT_BACK | A_ITER_MUT_FORGET | A_DRAIN_FORGET | A_CAPACITY | A_BORROWED | A_EXTEND_HUGE_HINT, 3, if q { 2 } else { 3 }),
+        "C04" => (full | A_ITER_MUT_BACK | A_ITER_MUT_FORGET | A_DRAIN_FORGET | A_CAPACITY | A_CAPACITY_HUGE | A_BORROWED | A_EXTEND_HUGE_HINT, 3, if q { 2 } else { 3 }),
         "C11" => (A_PUSH | A_PUSH_INCDEC | A_REMOVE | A_POP | A_CHANGE, 4, 3),
         "C12" => (A_CORE | A_PAYLOAD | A_BORROWED | A_ITER_MUT | A_ITER_MUT_BACK | A_RETAIN | A_CONVERT | A_EXTEND | A_APPEND, 3, 2),
         _ => unreachable!(),
@@ -1303,6 +1303,8 @@ pub fn run_c17<H: HB>(tier: Tier) -> Outcome {
             return out;
         }
     }
+    // reserve / try_reserve / shrink_to_fit as transitions on other element types (zero-sized, wide, heap-owning)
+    type_matrix(&mut out, prop);
     out
 }
 
